@@ -464,6 +464,7 @@ func main() {
 		cov := map[string]interface{}{
 			"evaluations":         total.Runs,
 			"distinct_nontrivial": len(digests) + overflow,
+			"distinct_nontrivial_note": "exact up to 3,000,000 distinct cases per worker; cases explored beyond that bound are not added (counters.cases_beyond_distinctness_bound), so the figure is a lower bound in long runs",
 			"scenarios":           total.Scenarios,
 			"rule":                pc.rule,
 			"samples":             total.Samples,
